@@ -13,12 +13,12 @@
    above it) and the injector reports that it fired, Ok is a violation even with complete rows; hang
    (progress watchdog, confirmed by a second run), process abort and panic-instead-of-error are violations.
 """
-import json, re, collections
+import json, re, collections, os
 from common import *
 import sqlcases, vlife
 
 NB, RB = 3, 4                       # std dataset: batches per partition, rows per batch
-EFFECTIVE = {"src_err", "src_panic", "udf", "spillw"}
+EFFECTIVE = {"src_err", "src_panic", "udf", "spillw", "src_swallow"}
 
 # queries that spill under a small pool (big dataset): sql, tp, pl, mem limits tried
 SPILL_SHAPES = {
@@ -261,6 +261,12 @@ def run(ctx):
             metas[it["id"]] = dict(case=c, sqlref=f"sqlref:{c['id']}", must_err=False, plan_based=True)
             n += 1
 
+    selftest = os.environ.get("C20_SELFTEST") == "1"
+    if selftest:
+        # demonstrate that the oracle binds: the source swallows the error (Err -> end of stream); every such run must be condemned
+        for it in items + sql_items:
+            if it.get("fault") and it["fault"]["kind"] == "src_err":
+                it["fault"]["kind"] = "src_swallow"
     res = vlife.run_items(ctx, items + sql_items, datasets, "faults", procs=4 if quick else 6, timeout=6000)
     res.update(ref_res)
 
@@ -312,6 +318,14 @@ def run(ctx):
             if len(samples) < 3 and (not samples or samples[-1]["fault"]["kind"] != it["fault"]["kind"]):
                 samples.append({"sql": it["sql"], "fault": it["fault"], "exec": it["exec"], "outcome": r["outcome"], "error": (r.get("err") or "")[:160],
                                 "batches_before_error": r.get("batches_polled")})
+        if selftest:
+            if it["fault"]["kind"] == "src_swallow" and r.get("fired"):
+                classes["selftest_swallow_fired"] += 1
+                if msg:
+                    classes["selftest_swallow_detected"] += 1
+                else:
+                    classes["selftest_missed:" + (meta.get("shape") or "sql")] += 1
+            continue
         if msg:
             rp = {"item": it, "datasets": {it["dataset"]: datasets[it["dataset"]]} if "dataset" in it else {},
                   "ref_item": next((x for x in refs if x["id"] == meta.get("ref")), None) or all_items.get(meta.get("sqlref")),
@@ -319,6 +333,10 @@ def run(ctx):
                   "observed_rows": r.get("rows"), "oracle": msg, "class": cls}
             ref_ops = (ref or res.get(meta.get("sqlref", ""), {})).get("plan_ops") or []
             report_violation(ctx, rp, key=finding_key(r, cls, ref_ops))
+    if selftest:
+        log("SELFTEST", json.dumps(dict(classes)))
+        write_evidence(ctx, "fault_enumeration", {"evaluations": evaluations, "distinct_nontrivial": classes["selftest_swallow_detected"], "rule": "selftest", "samples": [dict(classes)]})
+        return
     if classes["tool"]:
         raise ToolError("unexpected harness outcome")
     if classes["err_after_fault"] + classes["panic_propagated"] < 20:
